@@ -19,12 +19,14 @@ CONSTANTS MaxCmds, MaxLen,
           Truncate,         \* also explore every truncation of the stream (end of stream inside a packet)
           NoDrain,          \* deviation: forget bytes.drain(0..start)
           StaleRemaining,   \* deviation: remaining not updated after a multi-fragment message
-          EofIgnoresRest    \* deviation: leftover bytes at EOF reported as a clean end
+          EofIgnoresRest,   \* deviation: leftover bytes at EOF reported as a clean end
+          MinBuf,           \* the buffer offered to read() is max(MinBuf, 2*end) - end (4096 in the code)
+          SaturatedSkipsParse \* deviation: after a read that filled the offered buffer, read again before parsing
 
-VARIABLES lens, seq0s, wire, sent, bytes, start, remaining, pc, delivered, res, hist
-vars == <<lens, seq0s, wire, sent, bytes, start, remaining, pc, delivered, res, hist>>
+VARIABLES lens, seq0s, wire, sent, bytes, start, remaining, pc, delivered, res, hist, sat
+vars == <<lens, seq0s, wire, sent, bytes, start, remaining, pc, delivered, res, hist, sat>>
 \* the observation/history variables are hidden from the state graph
-view == <<lens, seq0s, Len(wire), sent, bytes, start, remaining, pc, Len(delivered), res>>
+view == <<lens, seq0s, Len(wire), sent, bytes, start, remaining, pc, Len(delivered), res, sat>>
 
 Payload(i, n) == [j \in 1..n |-> (10 * i + j) % 251]
 RECURSIVE WireOf(_, _, _)
@@ -45,30 +47,33 @@ Init == /\ lens \in UNION {[1..n -> 0..MaxLen] : n \in 1..MaxCmds}
         /\ wire \in IF Truncate THEN {SubSeq(WireOf(lens, seq0s, 1), 1, t) : t \in 0..Len(WireOf(lens, seq0s, 1))}
                     ELSE {WireOf(lens, seq0s, 1)}
         /\ sent = 0 /\ bytes = << >> /\ start = 0 /\ remaining = 0 /\ pc = "idle" /\ delivered = << >> /\ res = "running"
-        /\ hist = << >>
+        /\ hist = << >> /\ sat = FALSE
 
 \* next(): self.start = self.bytes.len() - self.remaining
 Enter == /\ pc = "idle" /\ res = "running"
          /\ start' = Len(bytes) - remaining /\ pc' = "try"
-         /\ UNCHANGED <<lens, seq0s, wire, sent, bytes, remaining, delivered, res, hist>>
+         /\ UNCHANGED <<lens, seq0s, wire, sent, bytes, remaining, delivered, res, hist, sat>>
 \* if self.remaining != 0 { match packet(&self.bytes[self.start..]) ... }
 Try == /\ pc = "try"
-       /\ LET p == IF remaining # 0 THEN Parse(SubSeq(bytes, start + 1, Len(bytes))) ELSE [ok |-> FALSE] IN
+       /\ LET p == IF remaining # 0 /\ ~(SaturatedSkipsParse /\ sat) THEN Parse(SubSeq(bytes, start + 1, Len(bytes))) ELSE [ok |-> FALSE] IN
           IF p.ok THEN /\ delivered' = Append(delivered, p.pkt)
                        /\ remaining' = IF StaleRemaining /\ p.frags > 1 THEN remaining ELSE Len(p.rest)
                        /\ pc' = "idle"
                   ELSE /\ pc' = "need" /\ UNCHANGED <<delivered, remaining>>
-       /\ UNCHANGED <<lens, seq0s, wire, sent, bytes, start, res, hist>>
+       /\ UNCHANGED <<lens, seq0s, wire, sent, bytes, start, res, hist, sat>>
 \* drain the consumed prefix, read k bytes (any 1 <= k <= available), or hit EOF
 Read == /\ pc = "need"
-        /\ LET kept == IF NoDrain THEN bytes ELSE SubSeq(bytes, start + 1, Len(bytes)) IN
+        /\ LET kept == IF NoDrain THEN bytes ELSE SubSeq(bytes, start + 1, Len(bytes))
+               \* self.bytes.resize(max(4096, end * 2)): the capacity offered to this read
+               want == (IF MinBuf > 2 * Len(kept) THEN MinBuf ELSE 2 * Len(kept)) - Len(kept)
+           IN
            \/ /\ sent < Len(wire)
-              /\ \E k \in 1..(Len(wire) - sent) :
+              /\ \E k \in 1..(IF Len(wire) - sent < want THEN Len(wire) - sent ELSE want) :
                    /\ bytes' = kept \o SubSeq(wire, sent + 1, sent + k) /\ sent' = sent + k
-                   /\ hist' = Append(hist, k)
+                   /\ hist' = Append(hist, k) /\ sat' = (k = want)
               /\ remaining' = Len(bytes') /\ start' = 0 /\ pc' = "try" /\ UNCHANGED res
            \/ /\ sent = Len(wire)
-              /\ bytes' = kept /\ start' = 0 /\ remaining' = Len(kept) /\ pc' = "done" /\ UNCHANGED <<sent, hist>>
+              /\ bytes' = kept /\ start' = 0 /\ remaining' = Len(kept) /\ pc' = "done" /\ UNCHANGED <<sent, hist>> /\ sat' = FALSE
               /\ res' = IF kept = << >> \/ EofIgnoresRest THEN "none" ELSE "eof_err"
         /\ UNCHANGED <<lens, seq0s, wire, delivered>>
 Next == Enter \/ Try \/ Read
